@@ -1,6 +1,9 @@
 (* C04 - split() returns, in order, the stripped text of exactly the statements parse() returns:
    non-empty pieces at increasing, non-overlapping positions with whitespace-only gaps; re-splitting
    a piece (token level: always one statement; text level: refuted, with a conditional theorem). *)
+(* source pins: the functions of /repo the hand-written models in this file's cone mirror have the normalised AST they
+   were written from (tools/regen/gen_srcpins.py; a changed function breaks its Gen/Pin_*.v and this file with it) *)
+From SqlModel.Gen Require Pin_api_glue Pin_formatter_module.
 From SqlModel.Gen Require LexPins.   (* the scan loop, is_keyword, consume and the class-level state of sqlparse/lexer.py have the pinned shape *)
 From SqlModel Require Import Base PyStr Lexer SplitDefs Splitter Node.
 From SqlModel.Gen Require Import CaseTabs.
